@@ -283,4 +283,19 @@ theorem getValues_ok_iff (fenv : FEnv) (act : Act) (i : Nat) (cs : List Nat) (to
       match vs, this with
       | v1 :: v2 :: vv, _ => cases n <;> simp [Except.map, segVal]
 
+
+/-! ### closure counters -/
+
+theorem bump_getD (cs : List Nat) (i : Nat) (hi : i < cs.length) :
+    (bump cs i).getD i 0 = cs.getD i 0 + 1 := by
+  unfold bump
+  simp [List.getD_eq_getElem?_getD, hi]
+
+theorem bump_getD_ne (cs : List Nat) (i j : Nat) (h : j ≠ i) : (bump cs i).getD j 0 = cs.getD j 0 := by
+  unfold bump
+  simp [List.getD_eq_getElem?_getD, h.symm]
+
+theorem bump_length (cs : List Nat) (i : Nat) : (bump cs i).length = cs.length := by
+  simp [bump]
+
 end SpVerif
